@@ -21,5 +21,5 @@ SPECS = {
     "C19": props_locale.C19,
 }
 # specs that can be run (./check) but are not claimed in MANIFEST.json yet
-IN_PROGRESS = {"C19"}
+IN_PROGRESS = set()
 NOT_CLAIMED = {}
